@@ -31,7 +31,9 @@ type Program struct {
 	SpecFn   map[string]*spec.SpecFn
 	Ghost    map[string]*spec.GhostField
 	Sentinel map[string]int // qualified name -> distinct id
+	SentinelKind map[string]string // plain (wraps nothing) | custom (facts given by axioms)
 	SpecFiles []string
+	SrcPkgs []*packages.Package
 }
 
 var typeArgsRe = regexp.MustCompile(`\[[^\[\]]*\]`)
@@ -68,7 +70,8 @@ func Load(repo, specDir string) (*Program, error) {
 	prog, spkgs := ssautil.AllPackages(pkgs, ssa.InstantiateGenerics|ssa.GlobalDebug)
 	prog.Build()
 	p := &Program{Repo: repo, Prog: prog, Funcs: map[string]*ssa.Function{}, FuncPkg: map[*ssa.Function]*ssa.Package{},
-		Contract: map[string]*spec.FuncSpec{}, SpecFn: map[string]*spec.SpecFn{}, Ghost: map[string]*spec.GhostField{}, Sentinel: map[string]int{}}
+		Contract: map[string]*spec.FuncSpec{}, SpecFn: map[string]*spec.SpecFn{}, Ghost: map[string]*spec.GhostField{}, Sentinel: map[string]int{}, SentinelKind: map[string]string{}}
+	p.SrcPkgs = pkgs
 	for _, sp := range spkgs {
 		if sp == nil {
 			continue
@@ -153,7 +156,13 @@ func Load(repo, specDir string) (*Program, error) {
 		p.Ghost[g.Name] = g
 	}
 	for i, s := range p.Spec.Sentinels {
+		kind := "plain"
+		if strings.HasPrefix(s, "custom ") {
+			kind = "custom"
+			s = strings.TrimSpace(s[len("custom "):])
+		}
 		p.Sentinel[s] = i + 1
+		p.SentinelKind[s] = kind
 	}
 	return p, nil
 }
@@ -193,6 +202,9 @@ func (p *Program) TypeStr(t types.Type, pk *types.Package) string {
 
 // GlobalName prints a global's qualified name relative to pk.
 func (p *Program) GlobalName(g *ssa.Global, pk *types.Package) string {
+	if pk == nil {
+		pk = p.Root.Pkg
+	}
 	if g.Pkg != nil && g.Pkg.Pkg == pk {
 		return g.Name()
 	}
@@ -229,4 +241,40 @@ func trimPkg(s string) string {
 		return s[i+1:]
 	}
 	return s
+}
+
+// goTypeByName resolves "pkg.Type" / "Type" (root package) to a Go type, or nil.
+func (p *Program) goTypeByName(name string) types.Type {
+	ptr := false
+	if strings.HasPrefix(name, "*") {
+		ptr = true
+		name = name[1:]
+	}
+	var obj types.Object
+	if i := strings.Index(name, "."); i >= 0 {
+		for _, sp := range p.Pkgs {
+			for _, imp := range sp.Pkg.Imports() {
+				if imp.Name() == name[:i] {
+					obj = imp.Scope().Lookup(name[i+1:])
+				}
+			}
+		}
+	} else {
+		switch name {
+		case "int", "bool", "seq", "ref", "slice", "strlist":
+			return nil
+		}
+		obj = p.Root.Pkg.Scope().Lookup(name)
+	}
+	if obj == nil {
+		return nil
+	}
+	tn, ok := obj.(*types.TypeName)
+	if !ok {
+		return nil
+	}
+	if ptr {
+		return types.NewPointer(tn.Type())
+	}
+	return tn.Type()
 }
